@@ -34,12 +34,16 @@
      ASetInIgnored   set -e / set +e executed where errexit is being ignored (bash: inside a
                      negated command the new setting acts at once, `! { set -e; false; }` exits;
                      the interpreter keeps ignoring until the context ends)
+     ANegatedInSubshell  a subshell whose list has a negated statement at its top level: under errexit
+                     bash lets a failure inside that negated command end the subshell
+                     (`set -e; ( ! { false; echo a; } ); echo $?` prints 0), the interpreter ignores it
    NO PROOFS in this file. *)
 From Verif Require Import Base.Str Interp.Core.
 Open Scope N_scope.
 
 Inductive abort :=
-| AFuel | AUnsupported | ABadCount | ABadStatus | AReturnOutside | ABreakInCond | AEmptyCond | ASetInIgnored.
+| AFuel | AUnsupported | ABadCount | ABadStatus | AReturnOutside | ABreakInCond | AEmptyCond | ASetInIgnored
+| ANegatedInSubshell.
 
 Inductive outcome :=
 | ONormal
@@ -262,6 +266,7 @@ Definition sem_step (fuel : nat) (k : sctx) (c : cmd) (ss : sst) : sres :=
   | CCall w ws => sem_call k (List.map (sexpw ss) (w :: ws)) ss
   | CBlock l => sem_stmts k l ss
   | CSub l =>
+      if existsb (fun t => match t with Stmt n _ => n end) l then (ss, 0, OAbort ANegatedInSubshell) else
       (* a subshell gives back only its output and its status *)
       match sem_stmts (mkK false false (noerr k)) l ss with
       | (ss1, code, OAbort why) => (s_set_out (sout ss1) ss, code, OAbort why)
